@@ -22,6 +22,7 @@ sys.path.insert(0, HERE)
 import vbuild  # noqa: E402
 
 CACHE = os.path.join(VERIF, ".cache")
+WORK = os.environ.get("VERIF_WORK", CACHE)  # per-invocation scratch root (vmutants sets it)
 CHECKS = json.load(open(os.path.join(HERE, "checks.json")))
 NPROC = int(os.environ.get("VERIF_NPROC", "16"))
 
@@ -34,7 +35,7 @@ def known_findings():
 
 
 def build_for(prop, cfg, extra_replace=None, outdir=None):
-    outdir = outdir or os.path.join(CACHE, "bin", prop)
+    outdir = outdir or os.path.join(WORK, "bin", prop)
     binp = os.path.join(outdir, cfg["harness"])
     info = vbuild.build(cfg["harness"], binp, seam=cfg.get("seam", False), test=cfg.get("test", False),
                         extra_replace=extra_replace)
@@ -203,7 +204,7 @@ def main():
         print(str(e)[-6000:])
         sys.exit(2)
 
-    outdir = os.path.join(CACHE, "out", prop, tier)
+    outdir = os.path.join(WORK, "out", prop, tier)
     results, errors = run_workers(prop, cfg, binp, tier, seed, known_ids, outdir)
     m = merge(results)
     if errors and not results:
